@@ -264,6 +264,13 @@ def _variant_array(a, variant):
         if a.ndim == 1:
             return np.ascontiguousarray(a[::-1])[::-1]  # negative-stride view
         return a.copy()
+    if variant == "column":        # round 7: a column slice big[..., 1] of an array with one more (trailing) axis: every element 3 items apart
+        if a.ndim == 0:
+            return a.copy()
+        big = np.full(tuple(a.shape) + (3,), 7, dtype=a.dtype)
+        view = big[..., 1]
+        view[...] = a
+        return view
     if variant in ("sliced", "strided"):
         if a.ndim == 0:
             return a.copy()
@@ -459,6 +466,25 @@ def entry_points(dtype=np.float64, seed=0):
         mx = sp.index(max(sp)) if sp else 0
         return f"(KPrw {len(r)}%nat {C.nat_list(nr)} {C.nat_list(ns)} {C.nat_list(dg)} {mx}%nat)"
 
+    def nk(normalize, sweeps=2):       # non_negative_tucker(tensor, init): order-generic skeleton of Model/EffectsR7.v
+        def nk_name(args):
+            N = args[0].ndim
+            return f"(KNnTuckerN {N}%nat {sweeps}%nat {C.boolc(normalize)} {C.nat_list(range(N))})"
+        return (nk_name, [0, 1])
+
+    def mono_name(dec):                # monotonicity_prox(tensor, decreasing): 1-D or 2-D input, rows x columns
+        def name(args):
+            a = args[0]
+            rows, cols = (a.shape[0], 1) if a.ndim == 1 else a.shape[:2]
+            return f"(KMonoProx {C.boolc(dec)} {C.boolc(a.ndim == 1)} {int(rows)}%nat {int(cols)}%nat)"
+        return (name, [0])
+
+    def unimodal_name(args):
+        a = args[0]
+        rows, cols = (a.shape[0], 1) if a.ndim == 1 else a.shape[:2]
+        return f"(KUnimodalProx {C.boolc(a.ndim == 1)} {int(rows)}%nat {int(cols)}%nat)"
+    PROX_SKEL = {"mono": mono_name(False), "mono_dec": mono_name(True), "unimodal": (unimodal_name, [0]), "unimodal_op": (unimodal_name, [0])}
+
     PK = (pk_name, [0, 1, 2, 3])
     simple("parafac_init_tuple", lambda X, i, fm, m: parafac(X, R, n_iter_max=2, init=i, fixed_modes=fm, mask=m), lambda d: (d.X, (d.w, d.fs), None, None), skel=PK)
     simple("parafac_init_tuple_unitw", lambda X, i, fm, m: parafac(X, R, n_iter_max=2, init=i, fixed_modes=fm, mask=m), lambda d: (d.X, (d.w1, d.fs), None, None), skel=PK)
@@ -527,12 +553,23 @@ def entry_points(dtype=np.float64, seed=0):
     simple("partial_tucker_init", lambda X, i, mo: partial_tucker(X, [2, 2], modes=mo, n_iter_max=2, init=i), lambda d: (d.X, (d.rs.rand(2, 3, 2).astype(dtype), [d.tf[0], d.tf[2]]), [0, 2]))
     simple("Tucker_class_init", lambda X, i: Tucker([2, 2, 2], n_iter_max=2, init=i).fit_transform(X), lambda d: (d.X, (d.core, d.tf)))
     simple("initialize_tucker_user", lambda X, i: initialize_tucker(X, [2, 2, 2], [0, 1, 2], None, init=i), lambda d: (d.X, (d.core, d.tf)), skel=("KInitTucker", [0, 1]))
-    simple("initialize_tucker_user_nonneg", lambda X, i: initialize_tucker(X, [2, 2, 2], [0, 1, 2], None, init=i, non_negative=True), lambda d: (d.X, (-d.core, [-f for f in d.tf])), skel=("KInitTucker", [0, 1]))
+    simple("initialize_tucker_user_nonneg", lambda X, i: initialize_tucker(X, [2, 2, 2], [0, 1, 2], None, init=i, non_negative=True), lambda d: (d.X, (-d.core, [-f for f in d.tf])), skel=("(KInitTuckerNnN 3%nat)", [0, 1]))
     simple("nn_tucker", lambda X: non_negative_tucker(X, [2, 2, 2], n_iter_max=3, init="random", random_state=sd), lambda d: (d.X,))
-    simple("nn_tucker_init", lambda X, i: non_negative_tucker(X, [2, 2, 2], n_iter_max=2, init=i, normalize_factors=True), lambda d: (d.X, (d.core, d.tf)))
+    simple("nn_tucker_init", lambda X, i: non_negative_tucker(X, [2, 2, 2], n_iter_max=2, init=i, normalize_factors=True), lambda d: (d.X, (d.core, d.tf)), skel=nk(True))
+    # round 7: the in-place multiplicative updates of non_negative_tucker work on what initialize_tucker(non_negative=True) returns:
+    # inits WITHOUT negative entries (tl.abs must still copy), mixed ones (only some arrays have a negative entry), one sweep, every container kind
+    simple("nn_tucker_init_list_1sweep", lambda X, i: non_negative_tucker(X, [2, 2, 2], n_iter_max=1, init=i, tol=0), lambda d: (d.X, [d.core, tuple(d.tf)]), skel=nk(False, 1))
+    simple("nn_tucker_init_mixed_sign", lambda X, i: non_negative_tucker(X, [2, 2, 2], n_iter_max=2, init=i, tol=0), lambda d: (d.X, (d.core, [d.tf[0], -d.tf[1], d.tf[2]])), skel=nk(False))
+    simple("nn_tucker_init_mixed_sign_core", lambda X, i: non_negative_tucker(X, [2, 2, 2], n_iter_max=2, init=i, tol=0), lambda d: (d.X, TuckerTensor((-d.core, d.tf))), skel=nk(False))
+    simple("nn_tucker_init_zero_entries", lambda X, i: non_negative_tucker(X, [2, 2, 2], n_iter_max=2, init=i, tol=0, normalize_factors=True), lambda d: (d.X, (d.core * (d.core > 0.5), [f * (f > 0.3) + 0.01 * (f <= 0.3) for f in d.tf])), skel=nk(True))
     simple("nn_tucker_hals", lambda X: non_negative_tucker_hals(X, [2, 2, 2], n_iter_max=3, init="random", random_state=sd), lambda d: (d.X,))
     simple("nn_tucker_hals_as", lambda X: non_negative_tucker_hals(X, [2, 2, 2], n_iter_max=2, init="random", random_state=sd, algorithm="active_set"), lambda d: (d.X,))
     simple("nn_tucker_hals_init", lambda X, i, sc, fm: non_negative_tucker_hals(X, [2, 2, 2], n_iter_max=2, init=i, sparsity_coefficients=sc, fixed_modes=fm), lambda d: (d.X, (d.core, d.tf), [0.1, 0.1, 0.1], [0]))
+    # round 7: the callee active_set_nnls catches the failure of its solve (a try statement inside a callee: Model.EffectsR7.xcmd)
+    simple("nn_tucker_hals_init_as_plain", lambda X, i, sc, fm: non_negative_tucker_hals(X, [2, 2, 2], n_iter_max=2, init=i, sparsity_coefficients=sc, fixed_modes=fm, algorithm="active_set", tol=0),
+           lambda d: (d.X, (d.core, d.tf), [0.1, 0.1, 0.1], [0]), skel=("KXNnTuckerHalsActiveSet", [0, 1, 2, 3]))
+    simple("nn_tucker_hals_init_as_singular", lambda X, i, sc, fm: non_negative_tucker_hals(X, [2, 2, 2], n_iter_max=2, init=i, sparsity_coefficients=sc, fixed_modes=fm, algorithm="active_set", tol=0),
+           lambda d: (np.ones((4, 3, 5), dtype=dtype), (np.ones((2, 2, 2), dtype=dtype), [np.ones((s_, 2), dtype=dtype) for s_ in (4, 3, 5)]), [0.1, 0.1, 0.1], [0]), skel=("KXNnTuckerHalsActiveSet", [0, 1, 2, 3]))
     simple("nn_tucker_hals_init_as", lambda X, i: non_negative_tucker_hals(X, [2, 2, 2], n_iter_max=2, init=i, algorithm="active_set", normalize_factors=True), lambda d: (d.X, (d.core, d.tf)))
     # ---------------------------------------------------------------- other decompositions
     simple("parafac2", lambda sl: parafac2(sl, R, n_iter_max=3, random_state=sd), lambda d: (d.slices,))
@@ -568,7 +605,11 @@ def entry_points(dtype=np.float64, seed=0):
                         ("normsparse", lambda v: P.normalized_sparsity_prox(v, 3)), ("normalize", lambda v: P.proximal_operator(v, normalize=True)),
                         ("unimodal_op", lambda v: P.proximal_operator(v, unimodality=True)), ("hard_op", lambda v: P.proximal_operator(v, hard_sparsity=3)),
                         ("svt", lambda v: P.svd_thresholding(v, 0.1)), ("procrustes", lambda v: P.procrustes(v))]:
-        simple("prox_" + pname, call, lambda d: (d.rs.rand(4, 3).astype(dtype) - 0.3,))
+        simple("prox_" + pname, call, lambda d: (d.rs.rand(4, 3).astype(dtype) - 0.3,), skel=PROX_SKEL.get(pname))
+        # round 7: 1-D inputs (the operators reshape a vector to one column: a VIEW of the caller's vector) and single-column
+        # matrices; neither is monotone / unimodal / feasible, so every operator has to move entries
+        simple("prox_" + pname + "_vec", call, lambda d: (np.array([0.9, -0.4, 0.7, -0.2, 0.5, 0.1], dtype=dtype) + (d.rs.rand(6) * 0.05).astype(dtype),), skel=PROX_SKEL.get(pname))
+        simple("prox_" + pname + "_col", call, lambda d: ((np.array([0.9, -0.4, 0.7, -0.2, 0.5, 0.1], dtype=dtype) + (d.rs.rand(6) * 0.05).astype(dtype)).reshape(6, 1),), skel=PROX_SKEL.get(pname))
     # ---------------------------------------------------------------- NNLS solvers / ADMM
     Vw = lambda d: (d.rs.rand(4, 3) * 5 + 1).astype(dtype)          # far from the solution: the start matrix must move
     HN = ("KHalsNnls", [0, 1, 2])
@@ -714,6 +755,9 @@ def entry_points(dtype=np.float64, seed=0):
     simple("regression_metrics", lambda a, b: (MSE(a, b), RMSE(a, b), R2_score(a, b), correlation(a, b)), lambda d: (d.y, d.y[::-1] + 0.1))
     simple("entropy", lambda M, cp: (vonneumann_entropy(M), cp_vonneumann_entropy(cp)), lambda d: (d.UtU / np.trace(d.UtU), CPTensor((d.w / d.w.sum(), [np.linalg.qr(d.rs.rand(4, R))[0].astype(dtype)] * 2))))
     simple("compress", lambda sl: svd_compress_tensor_slices(sl, max_rank=3), lambda d: (d.slices,))
+    # round 7: degenerate shapes - slices with no more rows than the rank limit are passed through without an SVD (by reference, unwritten)
+    simple("compress_short_slices", lambda sl: svd_compress_tensor_slices(sl), lambda d: ([d.rs.rand(3, 5).astype(dtype), d.rs.rand(5, 5).astype(dtype), d.rs.rand(7, 5).astype(dtype)],))
+    simple("compress_short_slices_tuple_maxrank", lambda sl: svd_compress_tensor_slices(sl, max_rank=4), lambda d: ((d.rs.rand(2, 5).astype(dtype), d.rs.rand(4, 5).astype(dtype), d.rs.rand(6, 5).astype(dtype)),))
     simple("compress_threshold_tensor", lambda X: svd_compress_tensor_slices(X, compression_threshold=0.1), lambda d: (d.X,))
     simple("decompress", lambda p, lm: svd_decompress_parafac2_tensor(p, lm), lambda d: (lambda p: (p, [np.linalg.qr(d.rs.rand(6, p[2][i].shape[0]))[0].astype(dtype) for i in range(3)]))(p2t(d)))
     simple("decompress_none_obj", lambda p, lm: svd_decompress_parafac2_tensor(p, lm), lambda d: (lambda p: (Parafac2Tensor(p), [None, np.linalg.qr(d.rs.rand(6, p[2][1].shape[0]))[0].astype(dtype), None]))(p2t(d)))
@@ -773,7 +817,7 @@ def entry_points(dtype=np.float64, seed=0):
     simple("TensorRing_classes", lambda X, r: (TensorRingALS(r, n_iter_max=2, random_state=sd).fit_transform(X), TensorRingALSSampled(r, 10, n_iter_max=2, random_state=sd).fit_transform(X), TensorRing(r).fit_transform(X), tensor_ring(X, [2, 1, 2, 2], mode=1)), lambda d: (d.X, [2, 2, 2, 2]))
     simple("TensorTrain_classes", lambda X, r, Y, r2: (TensorTrain(r).fit_transform(X), TensorTrainMatrix(r2).fit_transform(Y)), lambda d: (d.X, [1, 2, 2, 1], d.rs.rand(2, 3, 2, 3).astype(dtype), [1, 2, 1]))
     simple("Tucker_NN_classes_init", lambda X, i, sc, fm: (Tucker_NN([2, 2, 2], n_iter_max=2, init=i).fit_transform(X), Tucker_NN_HALS([2, 2, 2], n_iter_max=2, init=i, sparsity_coefficients=sc, fixed_modes=fm).fit_transform(X)), lambda d: (d.X, (d.core, d.tf), [0.1, None, 0.1], [1, 2]))
-    simple("nn_tucker_init_obj_nonneg", lambda X, i: non_negative_tucker(X, [2, 2, 2], n_iter_max=3, init=i, tol=0), lambda d: (d.X, TuckerTensor((d.core, d.tf))))
+    simple("nn_tucker_init_obj_nonneg", lambda X, i: non_negative_tucker(X, [2, 2, 2], n_iter_max=3, init=i, tol=0), lambda d: (d.X, TuckerTensor((d.core, d.tf))), skel=nk(False, 3))
     simple("nn_tucker_hals_init_core_sparsity_fail", lambda X, i, sc: non_negative_tucker_hals(X, [2, 2, 2], n_iter_max=2, init=i, sparsity_coefficients=sc, core_sparsity_coefficient=0.1, algorithm="bogus"), lambda d: (d.X, (d.core, d.tf), [0.1, 0.2, 0.3]))
     simple("partial_tucker_init_mask", lambda X, i, mo, m: partial_tucker(X, [2, 2], modes=mo, n_iter_max=3, init=i, mask=m, tol=0), lambda d: (d.X, (d.rs.rand(2, 3, 2).astype(dtype), [d.tf[0], d.tf[2]]), [0, 2], d.mask))
     simple("tucker_fixed_factors_mask", lambda X, i, ff, m: tucker(X, [2, 2, 2], n_iter_max=2, init=i, fixed_factors=ff, mask=m), lambda d: (d.X, (d.core, d.tf), [2, 0], d.mask))
@@ -1087,6 +1131,11 @@ def fuzz_spec(fseed, dtype=np.float64):
         tf = [(rs.rand(sz, 2) + 0.1).astype(dtype) for sz in shape]
         if r.random() < 0.3 and algo != "tucker":
             core, tf = -core, [-f for f in tf]
+        r7 = random.Random(fseed ^ 0xE517)
+        if algo != "tucker" and r7.random() < 0.4:        # round 7: only SOME of the arrays have a negative entry
+            flip = [r7.random() < 0.5 for _ in range(order + 1)]
+            core = -core if flip[0] else core
+            tf = [(-f if fl else f) for f, fl in zip(tf, flip[1:])]
         init = TuckerTensor((core, list(tf))) if ckind == "obj" else ((core, fcont(tf)) if ckind == "tuple" else [core, fcont(tf)])
         if algo == "tucker":
             opts = dict(n_iter_max=n_iter, tol=r.choice([1e-5, 0]))
@@ -1101,6 +1150,7 @@ def fuzz_spec(fseed, dtype=np.float64):
             opts = dict(n_iter_max=n_iter, tol=r.choice([1e-4, 0]), normalize_factors=r.random() < 0.4)
             fn = lambda X_, i: non_negative_tucker(X_, rk, init=i, **opts)
             args = (X, init)
+            skel = ((lambda a, nz=opts["normalize_factors"], sw=min(n_iter, 3): f"(KNnTuckerN {a[0].ndim}%nat {sw}%nat {C.boolc(nz)} {C.nat_list(range(a[0].ndim))})"), [0, 1])
         else:
             sc = r.choice([None, [r.choice([None, 0.1]) for _ in modes]])
             opts = dict(n_iter_max=min(n_iter, 2), tol=r.choice([1e-8, 0]), normalize_factors=r.random() < 0.4, algorithm=r.choice(["fista", "active_set"]),
@@ -2226,6 +2276,9 @@ HAND_WRITTEN = {    # (function, in-place parameters, option-set index) -> (hand
     ("CP_PLSR.fit", (), 0): ("KPlsrFit", [F_, F_]),
     ("tucker_mode_dot", (), 0): ("KTuckerModeDotCopy", [F_, F_]),
     ("tucker_mode_dot", ("tucker_tensor",), 0): ("KTuckerModeDotVecInplace", [T_, F_]),
+    ("non_negative_tucker", (), 0): ("(KNnTuckerN 3%nat 2%nat true [0%nat; 1%nat; 2%nat])", [F_] * 2),
+    ("monotonicity_prox", (), 0): ("(KMonoProx true false 3%nat 3%nat)", [F_]),
+    ("unimodality_prox", (), 0): ("(KUnimodalProx false 3%nat 3%nat)", [F_]),
 }
 HAND_WRITTEN_NEG = {"hals_nnls": ("KHalsNnls", [F_] * 3), "cp_mode_dot": ("KModeDotVecInplace", [F_, F_]),
                     "tucker_mode_dot": ("KTuckerModeDotMatInplace", [F_, F_])}
@@ -2274,8 +2327,9 @@ def static_cases(repo, cap=STATIC_CAP):
 
 # ============================================================================ running one configuration
 QUICK_VARIANTS = ["fresh", "transposed", "sliced", "readonly"]
+QUICK_COLUMN = ("prox_", "nn_tucker_init", "hals_nnls_warm", "active_set_warm", "fista_warm")     # configurations that also get the "column" kind in the quick tier
 HEAVY = {"nn_parafac_hals_init_exact_nnmodes"}      # > 1 s CPU per call (exact HALS: 50000 inner iterations): one kind in the quick tier
-ALL_VARIANTS = ["fresh", "transposed", "sliced", "strided", "readonly"]
+ALL_VARIANTS = ["fresh", "transposed", "sliced", "strided", "readonly", "column"]
 # "readonly": protected arrays have writeable=False and protected lists record mutator calls, so that a write of IDENTICAL
 # values (invisible to the byte snapshot) surfaces as an exception / a logged call: a write attempt through a protected
 # argument contradicts the model (no write command targets a caller-owned object); the harness then searches a failing input
@@ -2493,6 +2547,55 @@ def predicate(r):
     return None
 
 
+def sensitivity_preconditions():
+    """round 7: the visibility conditions of the seeded-defect families of Model/EffectsR7.v (Props C15_nn_tucker_abs_by_reference_family,
+    C15_prox_view_instead_of_copy_family) checked on the generator: -> (report dict, list of violated conditions)"""
+    E = entry_points(np.float64, 0)
+    rep, bad = {}, []
+
+    def arrays(x):
+        if isinstance(x, np.ndarray):
+            return [x]
+        if isinstance(x, (list, tuple)):
+            return [a for i in x for a in arrays(i)]
+        if is_wrapper(x):
+            return [a for k in wrapper_attrs(x) for a in arrays(getattr(x, k))]
+        return []
+    # family E: a by-reference array is visible only if it has NO negative entry, the call is not normalising and runs >= 1 sweep
+    allpos, mixed = [], []
+    for n in E:
+        if n.startswith("nn_tucker_init"):
+            sp = E[n](); sk = sp["skel"]
+            if sk is None:
+                continue
+            name = sk[0](sp["args"]) if callable(sk[0]) else sk[0]
+            unnormalised = " false " in name
+            signs = [bool((a < 0).any()) for a in arrays(sp["args"][1])]
+            if unnormalised and not any(signs):
+                allpos.append(n)
+            if unnormalised and any(signs) and not all(signs):
+                mixed.append(n)
+    rep["nn_tucker: user init without negative entries, no normalisation"] = allpos
+    rep["nn_tucker: user init with SOME arrays free of negative entries, no normalisation"] = mixed
+    if not allpos: bad.append("no non_negative_tucker configuration with an all-non-negative user init and normalize_factors=False")
+    if not mixed: bad.append("no non_negative_tucker configuration with a mixed-sign user init and normalize_factors=False")
+    # family F: decreasing=True / 1-D input / single column, and inputs the operator has to change
+    def monotone(a, dec):
+        a = a.reshape(a.shape[0], -1)
+        d = np.diff(a, axis=0)
+        return bool(((d <= 0) if dec else (d >= 0)).all())
+    for n, dec in [("prox_mono", False), ("prox_mono_dec", True), ("prox_unimodal", None)]:
+        for suffix, shape_ok in [("", lambda a: a.ndim == 2 and a.shape[1] > 1), ("_vec", lambda a: a.ndim == 1), ("_col", lambda a: a.ndim == 2 and a.shape[1] == 1)]:
+            if n + suffix not in E:
+                bad.append(f"configuration {n + suffix} missing"); continue
+            a = E[n + suffix]()["args"][0]
+            ok = shape_ok(a) and not (monotone(a, False) or monotone(a, True))
+            rep[n + suffix] = {"shape": list(a.shape), "operator_has_to_move_entries": ok}
+            if not ok:
+                bad.append(f"{n + suffix}: input shape {a.shape} is monotone (the operator would write identical values) or has the wrong kind")
+    return rep, bad
+
+
 def corpus_cases():
     """corpus/C15/*.json: configurations (table names or fuzz seeds) that caught a mutant or a past defect; they run first"""
     import glob, json, os
@@ -2511,7 +2614,7 @@ def plan(tier, rng):
     cases = [c for c in corpus_cases() if c[0].startswith("fuzz:") or c[0] in names]
     if tier == "quick":
         for n in names:
-            for v in (["transposed"] if n in HEAVY else QUICK_VARIANTS):
+            for v in (["transposed"] if n in HEAVY else QUICK_VARIANTS + (["column"] if n.startswith(QUICK_COLUMN) else [])):
                 cases.append((n, v, "float32" if v == "sliced" else "float64", 0))     # both dtypes already in the quick tier
     else:
         for n in names:
@@ -2688,6 +2791,13 @@ def run(chk):
         chk.notes.append(f"in-place-style flags: {len(flags_found)} found, all modelled both ways and exercised with both values" if not any("in-place-style" in b["what"] for b in chk.broken) else "in-place-style flags: see broken")
         chk.notes.append(f"public surface: {len(allq) - len(missing)} of {len(allq)} public callables executed by the table" +
                          (f"; NOT executed: {', '.join(missing[:12])}" if missing else ""))
+    try:
+        srep, sbad = sensitivity_preconditions()
+        chk.cov["sensitivity_preconditions_of_the_seeded_families"] = srep
+        for b_ in sbad:
+            chk.broken.append({"what": "generator lost a visibility condition of a seeded-defect family (Props C15_*_family)", "detail": b_})
+    except Exception as e:
+        chk.broken.append({"what": "sensitivity_preconditions crashed", "detail": f"{type(e).__name__}: {e}"[:300]})
     builder.join()
     failing, n_eval, broken = C.run_case_shards("C15", HEADER_CASES, "case", cases, shard=200)
     chk.checker_cmds.append("coqc (vm_compute) on generated build/cases/C15/*.v: Corr.C15.failing")
